@@ -12,6 +12,11 @@
 //!              | 3 kind <trail> nl                 line statement (kind 0) / line comment (kind 1) with trailing blanks;
 //!                                                  nl 0 none 1 LF 2 CRLF 3 CR (indentation belongs to the preceding text)
 //!   mode 1: payload = <str> (template source as is)
+//!   mode 2 (history): 2 bits nconf (D1..D8){nconf} nops (op idx){nops} pk payload
+//!          several configurations live in ONE process: op 0 = build configuration idx (SyntaxConfig::builder()..build(),
+//!          never cached by the harness) and create its own Environment, op 1 = use configuration idx (built on first use)
+//!          on the probe: pk 0 = segments (payload as in mode 0, unparsed with the delimiters of that configuration),
+//!          pk 1 = <str> source as is.  Output: 4 nuse (len out...){nuse}, `out` being the mode 0 / mode 1 output of that use.
 //! Output: [2] on panic, [1 22] when the delimiter configuration is rejected, otherwise
 //!   mode 0:  R T      mode 1:  3 T
 //!   R = 0 <str rendered> | 1 errcode
@@ -40,159 +45,217 @@ fn nl(n: i64) -> &'static str {
     }
 }
 
+fn build_source(c: &mut Cur, d: &[String]) -> String {
+    let n = c.usize();
+    let mut s = String::new();
+    for _ in 0..n {
+        match c.i64() {
+            0 => s.push_str(&c.str()),
+            1 => {
+                let kind = c.i64();
+                let l = mark(c.i64());
+                let r = mark(c.i64());
+                let (a, body, b) = match kind {
+                    0 => (&d[2], " 'V' ", &d[3]),
+                    1 => (&d[0], " set q = 1 ", &d[1]),
+                    _ => (&d[4], " c ", &d[5]),
+                };
+                s.push_str(a);
+                s.push_str(l);
+                s.push_str(body);
+                s.push_str(r);
+                s.push_str(b);
+            }
+            4 => {
+                let kind = c.i64();
+                let l = mark(c.i64());
+                let r = mark(c.i64());
+                let body = c.str();
+                let (a, b) = match kind {
+                    0 => (&d[2], &d[3]),
+                    1 => (&d[0], &d[1]),
+                    _ => (&d[4], &d[5]),
+                };
+                s.push_str(a);
+                s.push_str(l);
+                s.push_str(&body);
+                s.push_str(r);
+                s.push_str(b);
+            }
+            2 => {
+                let l1 = mark(c.i64());
+                let r1 = mark(c.i64());
+                let content = c.str();
+                let l2 = mark(c.i64());
+                let r2 = mark(c.i64());
+                s.push_str(&d[0]);
+                s.push_str(l1);
+                s.push_str(" raw ");
+                s.push_str(r1);
+                s.push_str(&d[1]);
+                s.push_str(&content);
+                s.push_str(&d[0]);
+                s.push_str(l2);
+                s.push_str(" endraw ");
+                s.push_str(r2);
+                s.push_str(&d[1]);
+            }
+            _ => {
+                let kind = c.i64();
+                let trail = c.str();
+                let e = nl(c.i64());
+                if kind == 0 {
+                    s.push_str(&d[6]);
+                    s.push_str(" set q = 1");
+                } else {
+                    s.push_str(&d[7]);
+                    s.push_str(" c");
+                }
+                s.push_str(&trail);
+                s.push_str(e);
+            }
+        }
+    }
+    s
+}
+
+fn build_syntax(d: &[String]) -> Result<SyntaxConfig, i64> {
+    let mut b = SyntaxConfig::builder();
+    b.block_delimiters(d[0].clone(), d[1].clone())
+        .variable_delimiters(d[2].clone(), d[3].clone())
+        .comment_delimiters(d[4].clone(), d[5].clone())
+        .line_statement_prefix(d[6].clone())
+        .line_comment_prefix(d[7].clone());
+    b.build().map_err(|e| err_code(e.kind()))
+}
+
+fn ws_of(bits: i64) -> WhitespaceConfig {
+    WhitespaceConfig {
+        trim_blocks: bits & 1 != 0,
+        lstrip_blocks: bits & 2 != 0,
+        keep_trailing_newline: bits & 4 != 0,
+    }
+}
+
+/// renders and tokenizes `src`; `with_render` = the rendered output is part of the answer (mode 0)
+fn observe(env: &mut Environment, syntax: &SyntaxConfig, bits: i64, src: &str, with_render: bool) -> Vec<String> {
+    let ws = ws_of(bits);
+    env.set_trim_blocks(ws.trim_blocks);
+    env.set_lstrip_blocks(ws.lstrip_blocks);
+    env.set_keep_trailing_newline(ws.keep_trailing_newline);
+    env.set_syntax(syntax.clone());
+    let mut out: Vec<String> = vec![];
+    let rendered = env.render_str(src, ());
+    if !with_render {
+        out.push("3".into());
+    } else {
+        match rendered {
+            Ok(s) => {
+                out.push("0".into());
+                push_str(&mut out, &s);
+            }
+            Err(e) => {
+                out.push("1".into());
+                out.push(err_code(e.kind()).to_string());
+            }
+        }
+    }
+    let mut toks: Vec<String> = vec![];
+    let mut ntok = 0usize;
+    let mut end = vec!["0".to_string()];
+    let cp = |off: u32| src[..(off as usize).min(src.len())].chars().count();
+    for t in tokenize(src, false, syntax.clone(), ws) {
+        match t {
+            Ok((Token::TemplateData(s), _)) => {
+                toks.push("0".into());
+                push_str(&mut toks, s);
+                ntok += 1;
+            }
+            Ok((Token::VariableStart, sp)) => {
+                toks.push("1".into());
+                toks.push(cp(sp.start_offset).to_string());
+                ntok += 1;
+            }
+            Ok((Token::BlockStart, sp)) => {
+                toks.push("2".into());
+                toks.push(cp(sp.start_offset).to_string());
+                ntok += 1;
+            }
+            Ok(_) => {}
+            Err(e) => {
+                end = vec!["1".into(), err_code(e.kind()).to_string()];
+                break;
+            }
+        }
+    }
+    out.push(ntok.to_string());
+    out.extend(toks);
+    out.extend(end);
+    out
+}
+
+/// mode 2: several configurations built and used in one process
+fn history(c: &mut Cur, bits: i64) -> Vec<String> {
+    let nconf = c.usize();
+    let ds: Vec<Vec<String>> = (0..nconf).map(|_| (0..8).map(|_| c.str()).collect()).collect();
+    let nops = c.usize();
+    let ops: Vec<(i64, usize)> = (0..nops).map(|_| (c.i64(), c.usize())).collect();
+    let pk = c.i64();
+    let payload_at = c.i;
+    let mut built: Vec<Option<Result<SyntaxConfig, i64>>> = (0..nconf).map(|_| None).collect();
+    let mut envs: Vec<Environment> = (0..nconf).map(|_| Environment::new()).collect();
+    let mut uses: Vec<Vec<String>> = vec![];
+    for (op, i) in ops {
+        if i >= nconf {
+            continue;
+        }
+        if op == 0 || built[i].is_none() {
+            let r = build_syntax(&ds[i]);
+            if let Ok(ref s) = r {
+                envs[i] = Environment::new();
+                envs[i].set_syntax(s.clone());
+            }
+            built[i] = Some(r);
+        }
+        if op == 1 {
+            c.i = payload_at;
+            let src = if pk == 1 { c.str() } else { build_source(c, &ds[i]) };
+            let out = match built[i].as_ref().unwrap() {
+                Ok(s) => {
+                    let s = s.clone();
+                    observe(&mut envs[i], &s, bits, &src, pk != 1)
+                }
+                Err(code) => vec!["1".into(), code.to_string()],
+            };
+            uses.push(out);
+        }
+    }
+    let mut out = vec!["4".to_string(), uses.len().to_string()];
+    for u in uses {
+        out.push(u.len().to_string());
+        out.extend(u);
+    }
+    out
+}
+
 fn main() {
     // one environment for the whole run (every setting is overwritten per case); built syntax
-    // configurations are cached per delimiter set
+    // configurations are cached per delimiter set (modes 0 and 1)
     let mut env = Environment::new();
     let mut cache: HashMap<Vec<String>, Result<SyntaxConfig, i64>> = HashMap::new();
     serve(2, |c| {
         let mode = c.i64();
         let bits = c.i64();
+        if mode == 2 {
+            return history(c, bits);
+        }
         let d: Vec<String> = (0..8).map(|_| c.str()).collect();
-        let src = if mode == 1 {
-            c.str()
-        } else {
-            let n = c.usize();
-            let mut s = String::new();
-            for _ in 0..n {
-                match c.i64() {
-                    0 => s.push_str(&c.str()),
-                    1 => {
-                        let kind = c.i64();
-                        let l = mark(c.i64());
-                        let r = mark(c.i64());
-                        let (a, body, b) = match kind {
-                            0 => (&d[2], " 'V' ", &d[3]),
-                            1 => (&d[0], " set q = 1 ", &d[1]),
-                            _ => (&d[4], " c ", &d[5]),
-                        };
-                        s.push_str(a);
-                        s.push_str(l);
-                        s.push_str(body);
-                        s.push_str(r);
-                        s.push_str(b);
-                    }
-                    4 => {
-                        let kind = c.i64();
-                        let l = mark(c.i64());
-                        let r = mark(c.i64());
-                        let body = c.str();
-                        let (a, b) = match kind {
-                            0 => (&d[2], &d[3]),
-                            1 => (&d[0], &d[1]),
-                            _ => (&d[4], &d[5]),
-                        };
-                        s.push_str(a);
-                        s.push_str(l);
-                        s.push_str(&body);
-                        s.push_str(r);
-                        s.push_str(b);
-                    }
-                    2 => {
-                        let l1 = mark(c.i64());
-                        let r1 = mark(c.i64());
-                        let content = c.str();
-                        let l2 = mark(c.i64());
-                        let r2 = mark(c.i64());
-                        s.push_str(&d[0]);
-                        s.push_str(l1);
-                        s.push_str(" raw ");
-                        s.push_str(r1);
-                        s.push_str(&d[1]);
-                        s.push_str(&content);
-                        s.push_str(&d[0]);
-                        s.push_str(l2);
-                        s.push_str(" endraw ");
-                        s.push_str(r2);
-                        s.push_str(&d[1]);
-                    }
-                    _ => {
-                        let kind = c.i64();
-                        let trail = c.str();
-                        let e = nl(c.i64());
-                        if kind == 0 {
-                            s.push_str(&d[6]);
-                            s.push_str(" set q = 1");
-                        } else {
-                            s.push_str(&d[7]);
-                            s.push_str(" c");
-                        }
-                        s.push_str(&trail);
-                        s.push_str(e);
-                    }
-                }
-            }
-            s
-        };
-        let built = cache.entry(d.clone()).or_insert_with(|| {
-            let mut b = SyntaxConfig::builder();
-            b.block_delimiters(d[0].clone(), d[1].clone())
-                .variable_delimiters(d[2].clone(), d[3].clone())
-                .comment_delimiters(d[4].clone(), d[5].clone())
-                .line_statement_prefix(d[6].clone())
-                .line_comment_prefix(d[7].clone());
-            b.build().map_err(|e| err_code(e.kind()))
-        });
+        let src = if mode == 1 { c.str() } else { build_source(c, &d) };
+        let built = cache.entry(d.clone()).or_insert_with(|| build_syntax(&d));
         let syntax = match built {
             Ok(s) => s.clone(),
             Err(code) => return vec!["1".into(), code.to_string()],
         };
-        let ws = WhitespaceConfig {
-            trim_blocks: bits & 1 != 0,
-            lstrip_blocks: bits & 2 != 0,
-            keep_trailing_newline: bits & 4 != 0,
-        };
-        env.set_trim_blocks(ws.trim_blocks);
-        env.set_lstrip_blocks(ws.lstrip_blocks);
-        env.set_keep_trailing_newline(ws.keep_trailing_newline);
-        env.set_syntax(syntax.clone());
-        let mut out: Vec<String> = vec![];
-        let rendered = env.render_str(&src, ());
-        if mode == 1 {
-            out.push("3".into());
-        } else {
-            match rendered {
-                Ok(s) => {
-                    out.push("0".into());
-                    push_str(&mut out, &s);
-                }
-                Err(e) => {
-                    out.push("1".into());
-                    out.push(err_code(e.kind()).to_string());
-                }
-            }
-        }
-        let mut toks: Vec<String> = vec![];
-        let mut ntok = 0usize;
-        let mut end = vec!["0".to_string()];
-        let cp = |off: u32| src[..(off as usize).min(src.len())].chars().count();
-        for t in tokenize(&src, false, syntax, ws) {
-            match t {
-                Ok((Token::TemplateData(s), _)) => {
-                    toks.push("0".into());
-                    push_str(&mut toks, s);
-                    ntok += 1;
-                }
-                Ok((Token::VariableStart, sp)) => {
-                    toks.push("1".into());
-                    toks.push(cp(sp.start_offset).to_string());
-                    ntok += 1;
-                }
-                Ok((Token::BlockStart, sp)) => {
-                    toks.push("2".into());
-                    toks.push(cp(sp.start_offset).to_string());
-                    ntok += 1;
-                }
-                Ok(_) => {}
-                Err(e) => {
-                    end = vec!["1".into(), err_code(e.kind()).to_string()];
-                    break;
-                }
-            }
-        }
-        out.push(ntok.to_string());
-        out.extend(toks);
-        out.extend(end);
-        out
+        observe(&mut env, &syntax, bits, &src, mode != 1)
     });
 }
